@@ -451,8 +451,14 @@ Section Heartbeat.
       assert (Hlr : lowest_requested_ok s1 (Hb w first last count final)
                 (fst (nackfrags st w partial (p_an p2)) ++
                  [AckNack w (p_base p2) n m (snd (nackfrags st w partial (p_an p2)))]) = true).
-      { cbn [lowest_requested_ok]. rewrite hb_lu by lia.
-        destruct (Z.leb_spec (p_base p2) last) as [Hle|]; [|reflexivity].
+      { (* the model requests m0 = its ack base, the lowest number that is not recorded; the lowest
+           number that is not declared, m1, is at or above it *)
+        cbn [lowest_requested_ok]. rewrite hb_lu by lia.
+        destruct (lowest_unknown_some s1 (Z.max first 1)) as (m1 & E1). rewrite E1.
+        pose proof (lowest_unrecorded_le _ _ _ _ (hb_lu (Z.max first 1) ltac:(lia)) E1) as Hm01.
+        destruct (Z.leb_spec m1 last) as [Hle1|]; [|reflexivity].
+        assert (Hle : p_base p2 <= last) by lia.
+        apply requested_in_spec. exists (p_base p2). split; [lia|].
         rewrite requested_app. destruct (is_partial st w (p_base p2)) eqn:Epa.
         - rewrite nackfrags_requested; [reflexivity| |].
           + unfold partial, hb_partial. apply filter_In. split; [|exact Epa].
@@ -476,8 +482,10 @@ Section Heartbeat.
       change (spec_input s (Hb w first last count final)) with s1.
       assert (Hlr : lowest_requested_ok s1 (Hb w first last count final) [] = true).
       { cbn [lowest_requested_ok]. rewrite hb_lu by lia.
+        destruct (lowest_unknown_some s1 (Z.max first 1)) as (m1 & Em1). rewrite Em1.
+        pose proof (lowest_unrecorded_le _ _ _ _ (hb_lu (Z.max first 1) ltac:(lia)) Em1) as Hm01.
         destruct hb_missing_shape as [[_ Hl]|(l & E & _)]; [|subst missing; congruence].
-        destruct (Z.leb_spec (p_base p2) last); [lia|reflexivity]. }
+        destruct (Z.leb_spec m1 last); [lia|reflexivity]. }
       rewrite Hlr. cbn [negb andb].
       eexists. split; [reflexivity|]. cbn [so_base op_writer set_prox r_prox]. rewrite upd_same.
       apply (Inv_set st S w _ _ HI).
@@ -518,5 +526,34 @@ Section Heartbeat.
       + injection H as _ Hb _ _ _. apply hb_sns_base in Esns. rewrite <- Hb, Esns. split; [reflexivity|].
         intros x Hx. now apply hb_below_known.
     - cbn [snd]. intros [H|[]]. discriminate.
+  Qed.
+  (* the code as it is requests its ack base itself — the lowest number it has not recorded — whenever
+     the advertised range reaches it (more specific than the oracle's tolerant clause, which accepts
+     any number between the lowest not-recorded and the lowest not-declared one) *)
+  Lemma hb_requests_base : p_base p2 <= last ->
+    requested (p_base p2) (replies_of (snd (handle_heartbeat true st w p first last count final))) = true.
+  Proof.
+    intros Hle. unfold handle_heartbeat. destruct (Z.leb_spec count (p_hb p)) as [|_]; [lia|].
+    fold p2. fold last_chk. fold missing.
+    destruct hb_first_le as [Hf1 Hb1].
+    destruct hb_missing_shape as [[_ ?]|(l & E & _)]; [lia|].
+    rewrite E. cbn [negb orb].
+    destruct (hb_sns st w p2 (p_base p2 :: l)) as [[b n] m] eqn:Esns. cbn [snd].
+    rewrite replies_of_mark, replies_of_app, replies_of_map. cbn [replies_of flat_map app].
+    rewrite requested_app. destruct (is_partial st w (p_base p2)) eqn:Epa.
+    - rewrite nackfrags_requested; [reflexivity| |].
+      + unfold hb_partial. apply filter_In. split; [apply hb_window_head|exact Epa].
+      + unfold missing_frags. unfold is_partial in Epa. destruct (r_asm st w) as [fa|] eqn:Ea; [|discriminate].
+        destruct (F.alookup (p_base p2) (F.fa_bufs fa)) as [ab|] eqn:El; [|discriminate].
+        destruct HI as (_ & I2 & _). eapply missing_frags_nonempty; [apply (I2 w fa Ea)|exact El].
+    - unfold hb_sns in Esns.
+      assert (Hinc : incr_from (p_base p2) (filter (fun s0 => negb (is_partial st w s0)) (hb_window (p_base p2 :: l))) = true).
+      { apply incr_from_filter, hb_window_incr. rewrite <- E. apply missing_incr. }
+      destruct (fbs_spec _ _ Hb1 Hinc) as (n' & m' & E' & _ & _ & _ & Hm2 & _).
+      rewrite E' in Esns. injection Esns as <- <- <-.
+      cbn [requested existsb].
+      assert (Hin : In (p_base p2) m').
+      { apply Hm2; [|lia]. apply filter_In. split; [apply hb_window_head|now rewrite Epa]. }
+      apply memz_true in Hin. rewrite Hin. now rewrite orb_true_r.
   Qed.
 End Heartbeat.
